@@ -65,6 +65,11 @@ func WriteConfirmation(w io.Writer) error {
 
 // WriteFailure used by proxy to tell principal it did not connect to target
 func WriteFailure(w io.Writer, errString string) error {
+	// errString is a diagnostic; cut it to what the one-byte length can carry
+	// rather than failing to report the failure at all.
+	if len(errString) > 255 {
+		errString = errString[:255]
+	}
 	_, err := w.Write([]byte{denial})
 	if err != nil {
 		return err
